@@ -198,8 +198,9 @@ def check_C02(rep, fl):
     check_conflict_plumbing(rep, fl, rule="R02.2")
     props_life.check_handle_item_pairing(rep, fl, collisions=False)
     props_life.check_fifo(rep, fl)
-    # "never a value written before the latest clear()": the clear empties every shard
+    # "never a value written before the latest clear()": the clear empties every shard and discards everything buffered
     props_life.check_clear_parts(rep, fl)
+    props_life.check_cleaner(rep, fl)
 
 
 # ----------------------------------------------------------------------------------------
